@@ -1304,3 +1304,13 @@ package template
 //@   ensures shrinks: len(s) <= old(len(s))
 //@   loop 1
 //@     invariant len(s) == old(len(s)) && seqeq(seq(s), old(seq(s)))
+
+//@ func (i state) String() (r string)
+//@   serves C02 C06 C08 C14
+//@   defines seqeq(r, statename(i))
+//@   ensures named: i < 9 ==> len(r) > 0
+
+//@ func (i delim) String() (r string)
+//@   serves C02 C06 C08 C14
+//@   defines seqeq(r, delimname(i))
+//@   ensures named: i < 4 ==> len(r) > 0
